@@ -163,7 +163,7 @@ def coherence(live, problems, counter):
                 problems.append(("union-member", f"{u}: selector {k} maps to unknown member {m}"))
 
 
-def tables_check(ctx):
+def tables_check(ctx, again=False):
     from tools.extract_layout import extract
 
     L = layout()
@@ -178,9 +178,12 @@ def tables_check(ctx):
         pass
     ctx.count("snapshot_items_compared", counter[0])
     ctx.count("coherence_obligations", cnt2[0])
-    ctx.nontrivial.update(f"item{i}".encode() for i in range(counter[0] + cnt2[0]))
-    ctx.samples.append({"compared": "primitives/TPM_ALG/members[3]", "live": live["primitives"]["TPM_ALG"]["members"][3]})
-    ctx.samples.append({"coherence": "TPMT_PUBLIC.type selects parameters/unique for every valid value", "selection": live["structs"]["TPMU_PUBLIC_PARMS"]["selection"]})
+    ctx.nontrivial.update(f"item{'b' if again else ''}{i}".encode() for i in range(counter[0] + cnt2[0]))
+    if again:
+        ctx.count("tables_rechecked_after_decoding")
+    else:
+        ctx.samples.append({"compared": "primitives/TPM_ALG/members[3]", "live": live["primitives"]["TPM_ALG"]["members"][3]})
+        ctx.samples.append({"coherence": "TPMT_PUBLIC.type selects parameters/unique for every valid value", "selection": live["structs"]["TPMU_PUBLIC_PARMS"]["selection"]})
     if problems:
         kind, msg = problems[0]
         ctx.problem(f"C20:coherence:{kind}", "; ".join(m for _, m in problems[:12]) + (f" (+{len(problems) - 12} more)" if len(problems) > 12 else ""), {"problems": problems[:50]})
@@ -200,6 +203,9 @@ def run_shard(ctx):
         ctx.run_plain(lambda: tables_check(ctx), "tables")
     # (c) behavioural pass: snapshot-dictated events for one encoding per type / arm / command code shape
     wellformed_campaign(ctx, L, lambda case: c01.check_case(ctx, L, case), 1, 160, big=False)
+    if ctx.shard == 0:
+        # the tables must still be the pinned ones after messages (also with encrypted parameter areas) were decoded
+        ctx.run_plain(lambda: tables_check(ctx, again=True), "tables-after-decoding")
 
 
 def finalize(merged):
